@@ -164,9 +164,76 @@ def check_zone(ctx, tz, label, kind, z, model, rng):
     ctx.count('zones_' + kind)
 
 
+class ForeignZone(D.tzinfo):
+    """a PEP 495 tzinfo that is not one of dateutil's classes (no is_ambiguous(), no _fold helpers): answers straight from
+    a transition table.  datetime_exists / datetime_ambiguous / resolve_imaginary accept any tzinfo."""
+
+    def __init__(self, model, zero_dst=False):
+        self.m, self.zero_dst = model, zero_dst
+
+    def _type(self, dt):
+        w = TM.to_ts(dt.replace(tzinfo=None, microsecond=0))
+        pre = self.m.preimages(w)
+        if pre:
+            u = pre[min(dt.fold, len(pre) - 1)]
+        else:
+            # a skipped wall time: read with the offset in force after the gap whatever the fold bit says, as dateutil's
+            # own zones do (a zone that lets fold choose the side in a gap makes the generic datetime_ambiguous() call
+            # the skipped time ambiguous - foreign zones are outside C05's quantifier, so that is only noted here)
+            tr = [t for t in self.m.transitions()]
+            u = None
+            for t in tr:
+                old, new = self.m.raw_at(t - 1)[0], self.m.raw_at(t)[0]
+                if t + old <= w < t + new:
+                    u = t
+                    break
+            if u is None:
+                u = w
+        return self.m.raw_at(u)
+
+    def utcoffset(self, dt):
+        return None if dt is None else D.timedelta(seconds=self._type(dt)[0])
+
+    def tzname(self, dt):
+        return None if dt is None else self._type(dt)[1]
+
+    def dst(self, dt):
+        if dt is None:
+            return None
+        return D.timedelta(0) if self.zero_dst or not self._type(dt)[2] else D.timedelta(hours=1)
+
+    def fromutc(self, dt):
+        u = TM.to_ts(dt.replace(tzinfo=None, microsecond=0))
+        off = self.m.raw_at(u)[0]
+        wall = dt + D.timedelta(seconds=off)
+        pre = self.m.preimages(u + off)
+        return wall.replace(fold=1 if len(pre) == 2 and pre[1] == u else 0)
+
+    def __repr__(self):
+        return 'ForeignZone()'
+
+
+def foreign_zones(ctx, tz, rng):
+    """the classification functions on tzinfo objects of another library: ordinary DST, and repeated / skipped intervals
+    made by a change of the standard offset (dst() is zero on both sides)"""
+    from vf.oracles import tzif_ref
+    W = tzif_ref.write_tzif
+    ts = tzzoo.ts
+    tables = [('foreign: standard offset moves (dst always zero)', W([ts(2011, 3, 26, 23), ts(2014, 10, 25, 22), ts(2037)], [1, 2, 2],
+                                                                      [(10800, False, 'MSK'), (14400, False, 'MSK4'), (10800, False, 'MSK3')]), True),
+              ('foreign: ordinary DST', W([ts(2010, 3, 14, 7), ts(2010, 11, 7, 6), ts(2011, 3, 13, 7), ts(2011, 11, 6, 6), ts(2037)], [1, 0, 1, 0, 0],
+                                          [(-18000, False, 'EST'), (-14400, True, 'EDT')]), False),
+              ('foreign: half-hour set-back without dst', W([ts(1990, 5, 1, 0), ts(2037)], [1, 1], [(20700, False, 'AAA'), (18900, False, 'BBB')]), True)]
+    for label, data, zero_dst in tables:
+        m = TM.TzifModel(tzif_ref.RefZone(data))
+        check_zone(ctx, tz, label, 'foreign', ForeignZone(m, zero_dst), m, rng)
+
+
 def run(ctx):
     from dateutil import relativedelta, tz
     hits = {}
+    if ctx.shard == 0:
+        foreign_zones(ctx, tz, ctx.rng)
     unhook = tzzoo.install_hit_counters(hits)
     try:
         for label, kind, z, model, cleanup in TM.iter_zones(ctx, tz, relativedelta, ctx.rng, ctx.tier):
@@ -193,7 +260,7 @@ def floors(agg, tier):
     if c.get('tzical_scheduled_runs', 0) < 100:
         out.append('only %d scheduled runs on a shared iCalendar zone' % c.get('tzical_scheduled_runs', 0))
     for k, n in (('zones_fixed', 8), ('zones_tzfile', 30 if tier == 'quick' else 300), ('zones_tzfile-synthetic', 15), ('zones_tzstr', 20),
-                 ('zones_tzrange', 20), ('zones_tzical', 8), ('zones_tzlocal', 20), ('class_0_preimages', 2000), ('class_2_preimages', 2000),
+                 ('zones_tzrange', 20), ('zones_foreign', 3), ('zones_tzical', 8), ('zones_tzlocal', 20), ('class_0_preimages', 2000), ('class_2_preimages', 2000),
                  ('class_1_preimages', 2000), ('width_gap-1h', 500), ('width_fold-1h', 500), ('width_gap-30m', 10), ('width_gap-2h', 10),
                  ('width_gap-24h+', 2), ('width_fold-24h+', 2), ('width_gap-odd', 20), ('width_fold-odd', 20), ('sub_second_probes', 5000),
                  ('sub_second_probes_before_1970', 1000)):
